@@ -211,7 +211,7 @@ class Gen:
         if depth <= 0 or self.rng.random() < 0.12:
             return self.leaf(shape)
         kinds = ["un", "bin", "bin", "red", "red", "sub", "sub", "stack", "cat", "lam", "getitem", "outred", "reshape", "einsum",
-                 "opstack", "getslice", "slicesub", "indep", "cmp", "lazyred"]
+                 "opstack", "getslice", "slicesub", "indep", "cmp", "lazyred", "matmul"]
         if self.allow is not None:
             kinds = [k for k in kinds if k in self.allow] or ["bin"]
         kind = self.choice(kinds)
@@ -275,6 +275,23 @@ class Gen:
         if op == "truediv":
             r = ("un", "exp", (), r)
         return ("bin", op, (), l, r)
+
+    def k_matmul(self, depth, shape):
+        n = int(self.choice([1, 2, 3]))
+        if len(shape) == 0:
+            sl, sr = (n,), (n,)
+        elif len(shape) == 1:
+            sl, sr = ((shape[0], n), (n,)) if self.rng.random() < 0.5 else ((n,), (n, shape[0]))
+        elif len(shape) == 2:
+            sl, sr = (shape[0], n), (n, shape[1])
+        else:
+            return None
+        if self.rng.random() < 0.35:
+            names = self.same_size_names()
+            l, r = self.tensor(sl, names), self.tensor(sr, self.permuted(names))
+        else:
+            l, r = self.real(depth - 1, sl), self.real(depth - 1, sr)
+        return ("bin", "matmul", (), l, r)
 
     def k_cmp(self, depth, shape):
         # a comparison (bounded-integer valued) gating a real expression
